@@ -150,6 +150,17 @@ def gen_cases(tier, rng):
                 for t in range(0, 10):
                     i = tgt + rng.randrange(0, 4)
                     cases.append("cv09 %s 0 %s %s %d:%d:%d" % (variant, extra, hexs(w), t, i, 0 if w[i] else 0x41))
+    # copy_and_verify on a fixed-size array in sandbox memory (4 elements of 1 / 2 / 4 / 8 bytes: char, short, float, double),
+    # verifier taking the array by const reference: an object in application memory that sandbox writes cannot reach
+    for elsz in (1, 2, 4, 8):
+        n = 4 * elsz
+        for rep in range(2 if q else 6):
+            w = [rng.randrange(1, 120) for _ in range(n + rng.choice([0, 3]))]
+            off = len(w) - n
+            cases.append("cv09 arrv %d %d 0 %s -" % (off, elsz, hexs(w)))
+            for t in range(3):
+                i = off + rng.randrange(n)
+                cases.append("cv09 arrv %d %d 0 %s %d:%d:%d" % (off, elsz, hexs(w), t, i, w[i] ^ 0x55))
     # copy_and_verify on a pointer-to-STRUCT cell: the cell (4 bytes at 0) designates struct A (at 8) or B (at 16); the schedule
     # is indexed by the interleave points AND the read notifications of the cell in program order (0 = cv.struct.read,
     # 1 = the fetch of the cell, 2 = cv.struct.verifier): a second fetch of the cell would be a further point
